@@ -93,6 +93,16 @@ impl<'ctxt, R: ImportResolver, C: Cache> VirtualMachine<'ctxt, R, C> {
         // save this information now.
         let wrap_in_ok = matches!(mode, MergeMode::Contract(_));
 
+        // An empty record used as a record contract (`let C = {} in value | C`) is a closed record
+        // contract without fields: it must still reject the extra fields of a non-empty value.
+        // The neutral element fast path below would return the value unchecked, so we give the
+        // contract an allocated (empty) record and let the general case handle it.
+        let v2 = if wrap_in_ok && v2.is_inline_empty_record() && !v1.is_inline_empty_record() {
+            NickelValue::empty_record_block(pos2)
+        } else {
+            v2
+        };
+
         let result = match (v1.content_ref(), v2.content_ref()) {
             // Merge is idempotent on basic terms
             (ValueContentRef::Null, ValueContentRef::Null) => {
